@@ -64,7 +64,7 @@ register(Theorem(
 ))
 
 # ---- witness stacks: CompactSize count and item lengths (structural stacks of 0..3 items, items of any length)
-for n in range(0, 4):
+for n in range(0, 3):
     items = ", ".join(f"w{i}" for i in range(n))
     hexes = ", ".join(f"w{i}.hex()" for i in range(n))
     register(Theorem(
